@@ -428,7 +428,7 @@ def gen_bare_case(g, cid, opts=None):
     # one leaf of the first inner type runs a fallible check in its Into expression (`chk(~, id)?`): when it fires, every fallible
     # Into / IntoExisting flavour of the *outer* struct has to surface that error
     # the deriving struct may be a tuple struct mapped to the field-named counterpart through `as {}` and #[map(name)] on its own members
-    fc.s_tuple = g.chance(0.3)
+    fc.s_tuple = g.pick([False, False, False, "named_t", "tuple_t"])
     fc.chk = None
     if g.chance(0.5):
         l = fc.inners[0]["leaves"][0]
@@ -442,8 +442,50 @@ def render_bare_module(fc, g, fallible, draws):
     err = "super::Er" if fallible else None
     f = (lambda n: FALLIBLE_NAME[n]) if fallible else (lambda n: n)
     L = ["use super::*;", "use o2o::traits::*;"]
+    st = getattr(fc, "s_tuple", False)          # False | "named_t" (tuple S, field-named T through `as {}`) | "tuple_t" (tuple S, tuple T, by position)
+    tt = st == "tuple_t"
+    # member order of S: the same in the infallible and the fallible twin
+    order = [("own", o) for o in fc.own] + [("inner", b) for b in fc.inners]
+    import random as _random
+    _random.Random(fc.cid).shuffle(order)
+    # T-side designation of every counterpart field
+    tn = {}
+    if tt:
+        nxt = len(order)
+        for idx, (kd, x) in enumerate(order):
+            if kd == "own":
+                tn[x["name"]] = str(idx)
+            else:
+                # the slot of the parent member itself is free on the counterpart: the inner type's first leaf lives there
+                for li, l in enumerate(x["leaves"]):
+                    if li == 0:
+                        tn[l["name"]] = str(idx)
+                    else:
+                        tn[l["name"]] = str(nxt)
+                        nxt += 1
+        for e in fc.extra:
+            tn[e["name"]] = str(nxt)
+            nxt += 1
+    else:
+        for o in fc.own:
+            tn[o["name"]] = o["name"]
+        for b in fc.inners:
+            for l in b["leaves"]:
+                tn[l["name"]] = l["name"]
+        for e in fc.extra:
+            tn[e["name"]] = e["name"]
     tfields = [dict(name=o["name"], ty=o["ty"]) for o in fc.own] + [dict(name=l["name"], ty=l["ty"]) for b in fc.inners for l in b["leaves"]] + fc.extra
-    L.append("#[derive(Clone, Debug, PartialEq, Default)]\npub struct T { " + " ".join(f"pub {t['name']}: {t['ty']}," for t in tfields) + " }")
+    if tt:
+        tfields.sort(key=lambda t: int(tn[t["name"]]))
+        L.append("#[derive(Clone, Debug, PartialEq, Default)]\npub struct T(" + ", ".join(f"pub {t['ty']}" for t in tfields) + ");")
+    else:
+        L.append("#[derive(Clone, Debug, PartialEq, Default)]\npub struct T { " + " ".join(f"pub {t['name']}: {t['ty']}," for t in tfields) + " }")
+
+    def mk_t(pairs):
+        """pairs: [(counterpart field key, expr)] for every field of T"""
+        if tt:
+            return "T(" + ", ".join(e for _, e in sorted(pairs, key=lambda p_: int(tn[p_[0]]))) + ")"
+        return "T { " + " ".join(f"{tn[k]}: {e}," for k, e in pairs) + " }"
     inputs = []
     for b in fc.inners:
         bi = Item("struct", b["ty"], shape="named", vis="pub ")
@@ -453,14 +495,14 @@ def render_bare_module(fc, g, fallible, draws):
             x = "~"
             if fallible and fc.chk is not None and b is fc.inners[0] and l is b["leaves"][0]:
                 x = f"super::chk(~, {fc.chk})?"
-            bi.fields.append(Field(l["name"], l["ty"], [Instr("from", "map", container=None, member=None, action=f"~.wrapping_add({l['k'] % 50 + 1})", braced=False),
-                                                        Instr("into", "map", container=None, member=None, action=f"{x}.wrapping_sub({l['k'] % 50 + 1})", braced=False)]))
+            mem = int(tn[l["name"]]) if tt else None
+            bi.fields.append(Field(l["name"], l["ty"], [Instr("from", "map", container=None, member=mem, action=f"~.wrapping_add({l['k'] % 50 + 1})", braced=False),
+                                                        Instr("into", "map", container=None, member=mem, action=f"{x}.wrapping_sub({l['k'] % 50 + 1})", braced=False)]))
         if fc.overlap and fc.inners.index(b) == fc.overlap["inner"]:
-            bi.attrs.append(Instr("ghosts", "ghosts", container=None, entries=[dict(path=None, ident=fc.overlap["field"], action=str(fc.overlap["k"]))]))
+            bi.attrs.append(Instr("ghosts", "ghosts", container=None, entries=[dict(path=None, ident=tn[fc.overlap["field"]], action=str(fc.overlap["k"]))]))
         src = bi.render(derive="#[derive(Clone, Debug, PartialEq, Default, o2o::o2o)]")
         inputs.append(src)
         L.append(src)
-    st = getattr(fc, "s_tuple", False)
     it = Item("struct", "S", shape="tuple" if st else "named", vis="pub ")
     names = []
     todo = set(KINDS)
@@ -473,10 +515,16 @@ def render_bare_module(fc, g, fallible, draws):
     names += sorted(todo)
     r.shuffle(names)
     for nm in names:
-        it.attrs.append(Instr(f(nm), "trait", ty="T", hint=("{}" if st else None), err=err, params=[]))
-    flds = [Field(o["name"], o["ty"], [Instr("map", "map", container=None, member=o["name"], action=None)] if st else []) for o in fc.own] + [Field(b["fname"], b["ty"], [Instr("parent", "parent", container=None, fields=None)]) for b in fc.inners]
-    import random as _random
-    _random.Random(fc.cid).shuffle(flds)
+        it.attrs.append(Instr(f(nm), "trait", ty="T", hint=("{}" if st == "named_t" else None), err=err, params=[]))
+    flds = []
+    for kd, x in order:
+        if kd == "own":
+            # by position an own member needs no instruction; half of them name their (own) index explicitly all the same
+            explicit = tt and (fc.cid + len(flds)) % 2 == 0
+            flds.append(Field(x["name"], x["ty"], [Instr("map", "map", container=None, member=x["name"], action=None)] if st == "named_t" else
+                              [Instr("map", "map", container=None, member=len(flds), action=None)] if explicit else []))
+        else:
+            flds.append(Field(x["fname"], x["ty"], [Instr("parent", "parent", container=None, fields=None)]))
     it.fields = flds
     # field name -> how the reference functions and the driver address it
     acc = {fl.name: (str(i) if st else fl.name) for i, fl in enumerate(flds)}
@@ -488,26 +536,26 @@ def render_bare_module(fc, g, fallible, draws):
     for fl in it.fields:
         b = next((x for x in fc.inners if x["fname"] == fl.name), None)
         if b is None:
-            sv.append(f"{lbl(fl.name)}t.{fl.name},")
+            sv.append(f"{lbl(fl.name)}t.{tn[fl.name]},")
         else:
-            sv.append(f"{lbl(fl.name)}{b['ty']} {{ " + " ".join(f"{l['name']}: t.{l['name']}.wrapping_add({l['k'] % 50 + 1})," for l in b["leaves"]) + " },")
+            sv.append(f"{lbl(fl.name)}{b['ty']} {{ " + " ".join(f"{l['name']}: t.{tn[l['name']]}.wrapping_add({l['k'] % 50 + 1})," for l in b["leaves"]) + " },")
     sctor = (lambda parts: "S(" + " ".join(parts) + ")") if st else (lambda parts: "S { " + " ".join(parts) + " }")
     L.append(f"fn ref_from(t: &T) -> {'Result<S, super::Er>' if fallible else 'S'} {{ {wrap(sctor(sv))} }}")
 
     def tvals(existing):
-        v = [(f"{o['name']}: s.{acc[o['name']]}," if not (fc.overlap and fc.overlap["field"] == o["name"]) else f"{o['name']}: {fc.overlap['k']},") for o in fc.own]
+        v = [(o["name"], f"s.{acc[o['name']]}" if not (fc.overlap and fc.overlap["field"] == o["name"]) else str(fc.overlap["k"])) for o in fc.own]
         for b in fc.inners:
-            v += [f"{l['name']}: s.{acc[b['fname']]}.{l['name']}.wrapping_sub({l['k'] % 50 + 1})," for l in b["leaves"]]
-        v += [(f"{e['name']}: pre.{e['name']}," if existing else f"{e['name']}: Default::default(),") for e in fc.extra]
-        return "T { " + " ".join(v) + " }"
+            v += [(l["name"], f"s.{acc[b['fname']]}.{l['name']}.wrapping_sub({l['k'] % 50 + 1})") for l in b["leaves"]]
+        v += [(e["name"], f"pre.{tn[e['name']]}" if existing else "Default::default()") for e in fc.extra]
+        return mk_t(v)
     chk_path = f"s.{acc[fc.inners[0]['fname']]}.{fc.inners[0]['leaves'][0]['name']}" if fc.chk is not None else None
     guard = f"if {chk_path} % 5 == 0 {{ return Err(super::Er({fc.chk})); }} " if (fallible and fc.chk is not None) else ""
     L.append(f"fn ref_into(s: &S, pre: &T) -> {'Result<T, super::Er>' if fallible else 'T'} {{ {guard}{wrap(tvals(False))} }}")
     L.append(f"fn ref_existing(s: &S, pre: &T) -> {'Result<T, super::Er>' if fallible else 'T'} {{ {guard}{wrap(tvals(True))} }}")
     tag = f"c{fc.cid}{'f' if fallible else 'i'}"
     D = ["pub fn run(log: &mut crate::rt::Log) {", f"    let mut r = crate::rt::Rng::new({fc.cid + 8500});", f"    for d in 0..{draws}usize {{"]
-    D.append("        let t: T = T { " + " ".join(f"{t['name']}: {rng_call(t['ty'])}," for t in tfields) + " };")
-    D.append("        let pre: T = T { " + " ".join(f"{t['name']}: {rng_call(t['ty'])}," for t in tfields) + " };")
+    D.append("        let t: T = " + mk_t([(t["name"], rng_call(t["ty"])) for t in tfields]) + ";")
+    D.append("        let pre: T = " + mk_t([(t["name"], rng_call(t["ty"])) for t in tfields]) + ";")
     svv = []
     for fl in it.fields:
         b = next((x for x in fc.inners if x["fname"] == fl.name), None)
@@ -522,13 +570,96 @@ def render_bare_module(fc, g, fallible, draws):
     return "\n".join(L + D) + "\n", "\n".join(inputs + [derive_src])
 
 
+# ---------------------------------------------------------------------------------------------------------------
+# all-tuple child family (tests 9/10 `unnamed2unnamed`): tuple flat struct, tuple counterpart tree, everything addressed by index
+
+def gen_tchild_case(g, cid, opts=None):
+    r = g.r
+    fc = FlatCase()
+    fc.cid, fc.family = cid, "tchild"
+    fc.root = gen_tree(g, 0, r.choice([1, 1, 2, 3]), root=True)
+    for path, n in walk(fc.root):
+        n.tuple = True
+        for i, l in enumerate(n.leaves):
+            l["name"] = i
+        n.children = [(len(n.leaves) + j, ch) for j, (_, ch) in enumerate(n.children)]
+    # S fields in the positional order of the flattened tree (members of a node: its leaves, then its nested structs)
+    fc.fields = []
+    for path, n in walk(fc.root):
+        for l in n.leaves:
+            kf = g.mark() if g.chance(0.3) else None
+            fc.fields.append(dict(ty=l["ty"], path=path, leaf=l, k_from=kf, k_into=(g.mark() if kf is not None else None)))
+    fc.depth = max(len(p) for p, _ in walk(fc.root))
+    fc.branching = max([len(n.children) for _, n in walk(fc.root)] + [0])
+    fc.perm = "tuple_tree"
+    fc.hint = r.choice([None, "()"])
+    return fc
+
+
+def render_tchild_module(fc, g, fallible, draws):
+    r = g.r
+    it = Item("struct", "S", shape="tuple", vis="pub ")
+    names = []
+    todo = set(KINDS)
+    shorts = list(TRAIT_SHORT.items())
+    r.shuffle(shorts)
+    for sh, ks in shorts:
+        if set(ks) <= todo and g.chance(0.6):
+            names.append(sh)
+            todo -= set(ks)
+    names += sorted(todo)
+    r.shuffle(names)
+    for nm in names:
+        it.attrs.append(Instr(FALLIBLE_NAME[nm] if fallible else nm, "trait", ty="T", hint=fc.hint, err="super::Er" if fallible else None, params=[]))
+    pstr = lambda p: " .".join(p)
+    cps = [dict(path=pstr(p), ty=n.ty, hint=None) for p, n in walk(fc.root) if p]
+    r.shuffle(cps)
+    if cps:
+        it.attrs.append(Instr("child_parents", "child_parents", container=None, entries=cps))
+    for i, f in enumerate(fc.fields):
+        at = []
+        if f["path"]:
+            at.append(Instr("child", "child", container=None, path=pstr(f["path"])))
+        idx = f["leaf"]["name"]
+        explicit = bool(f["path"]) or f["k_from"] is not None or (fc.cid + i) % 3 == 0
+        if f["k_from"] is not None:
+            at.append(Instr("from", "map", container=None, member=idx, action=rnd_expr(f["ty"], f["k_from"], "~"), braced=bool(f["k_from"] % 2)))
+            at.append(Instr("into", "map", container=None, member=idx, action=rnd_expr(f["ty"], f["k_into"], "~"), braced=bool(f["k_into"] % 2)))
+        elif explicit:
+            at.append(Instr("map", "map", container=None, member=idx, action=None))
+        it.fields.append(Field(None, f["ty"], at))
+    derive_src = it.render(derive="#[derive(Clone, Debug, PartialEq, o2o::o2o)]")
+    L = ["use super::*;", "use o2o::traits::*;", type_defs(fc.root), derive_src, ""]
+    wrap = (lambda e: f"Ok::<_, super::Er>({e})") if fallible else (lambda e: e)
+    svals = []
+    for f in fc.fields:
+        x = "t." + ".".join(f["path"] + (str(f["leaf"]["name"]),))
+        svals.append(x if f["k_from"] is None else rnd_expr(f["ty"], f["k_from"], x))
+    L.append(f"fn ref_from(t: &T) -> {'Result<S, super::Er>' if fallible else 'S'} {{ {wrap('S(' + ', '.join(svals) + ')')} }}")
+    by_leaf = {id(f["leaf"]): i for i, f in enumerate(fc.fields)}
+
+    def into_leaf(path, l):
+        i = by_leaf[id(l)]
+        f = fc.fields[i]
+        return f"s.{i}" if f["k_into"] is None else rnd_expr(f["ty"], f["k_into"], f"s.{i}")
+    L.append(f"fn ref_into(s: &S, pre: &T) -> {'Result<T, super::Er>' if fallible else 'T'} {{ {wrap(tree_value(fc.root, into_leaf))} }}")
+    tag = f"c{fc.cid}{'f' if fallible else 'i'}"
+    D = ["pub fn run(log: &mut crate::rt::Log) {", f"    let mut r = crate::rt::Rng::new({fc.cid + 7300});", f"    for d in 0..{draws}usize {{"]
+    D.append("        let t: T = " + tree_value(fc.root, lambda p, l: rng_call(l["ty"])) + ";")
+    D.append("        let pre: T = " + tree_value(fc.root, lambda p, l: rng_call(l["ty"])) + ";")
+    D.append("        let s: S = S(" + ", ".join(rng_call(f["ty"]) for f in fc.fields) + ");")
+    D += conv_driver(tag, fallible, "ref_from(&t)", "ref_into(&s, &pre)", "ref_into(&s, &pre)")
+    D += ["    }", "}"]
+    return "\n".join(L + D) + "\n", derive_src
+
+
 def gen_case(g, cid, opts=None):
-    fam = (opts or {}).get("family") or g.pick(["child", "child", "child", "parent", "parent", "bare"])
-    return {"child": gen_child_case, "parent": gen_parent_case, "bare": gen_bare_case}[fam](g, cid, opts)
+    fam = (opts or {}).get("family") or g.pick(["child", "child", "child", "parent", "parent", "bare", "tchild"])
+    return {"child": gen_child_case, "parent": gen_parent_case, "bare": gen_bare_case, "tchild": gen_tchild_case}[fam](g, cid, opts)
 
 
 def render_case(fc, g, draws):
-    rm = {"child": render_child_module, "parent": render_parent_module, "bare": render_bare_module}[fc.family]
+    rm = {"child": render_child_module, "parent": render_parent_module, "bare": render_bare_module, "tchild": render_tchild_module}[fc.family]
     ci, di = rm(fc, g, False, draws)
     cf, df = rm(fc, g, True, draws)
     code = PRELUDE + "pub mod inf {\n" + ci + "}\npub mod fal {\n" + cf + "}\npub fn run(log: &mut crate::rt::Log) { inf::run(log); fal::run(log); }\n"
